@@ -95,29 +95,38 @@ CHECKS['C13'] = dict(
 )
 
 CHECKS['C14'] = dict(
-    text=('Proof over a stack-machine model of RemoteState (state.py) driven by the event order of unpickling (Pickle/State.v). The property is '
-          'FALSE of the current code and is recorded as known findings; the theorems are (a) C14_partial_chains: for chains of opt-in objects of '
-          'ANY depth (each with at most one direct opt-in child, classes defining __setstate__) the load succeeds, every instance is restored '
-          'exactly once with its own state, children first, and the per-thread stack returns to its initial state; (b) refutation theorems with '
-          'witnesses (two siblings, one child under two names, class without __setstate__) that the harness replays on the implementation. '
-          'Generated graphs (containers, plain holders, sharing, cycles, up to 4 opt-in instances) are run through the real dumps/loads and '
-          'compared with the model; the specification of C14 is evaluated directly on every run.'),
-    design='5/C14',
-    note=('Known findings: siblings / same child under two names (AssertionError), opt-in class without __setstate__ (AttributeError). The theorem '
-          'covers chains only; container-held, plain-held, shared and cyclic shapes are covered by the differential harness, not by a theorem. The '
-          'model is hand-written and pinned to state.py / remote_reduce by tools/pin.py. ' + COMMON_NOTE),
-    technique='machine-checked proof (Coq) on the working domain + refutation witnesses + differential correspondence',
+    text=('Proof. Pickle/State.v models the load-time machinery of remote_pickle after its repairs (five fix: commits): the pickler-side '
+          'bookkeeping of remote_reduce (which instances are ANNOUNCED by the object holding them, which are first occurrences, which references), '
+          'the event order of unpickling, and RemoteState as a stack machine whose entries carry their patches by value. '
+          'C14_every_graph_restores is proved by induction on the size of the graph for EVERY graph term - opt-in objects at top level, as '
+          'attributes of one another in any number (siblings) and to any depth, inside containers, inside objects of classes which do not opt in, '
+          'shared references, cycles, classes with and without __setstate__ - and every patch dictionary: the load succeeds, every instance is '
+          'restored exactly once, children before holders, with exactly the state the specification gives it, and the per-thread stack ends '
+          'clean. C14_dumps_then_loads transfers this to dumps-then-loads under the decidable condition that the announcements of the real '
+          'pickler coincide with the structure of the graph; that condition, the restored states and the errors are compared with the real '
+          'dumps/loads for every generated graph (check_load, check_dump), the specification of C14 is evaluated directly, the opt-in decision '
+          '(regenerated MRO scan, multiple-inheritance probe) and the remote=True-exactly-once log are checked on the implementation.'),
+    design='12.6',
+    note=('Residual known finding (with patches only, see C15): a directly held child whose first occurrence lies inside an earlier attribute '
+          'of the same holder. The sufficient syntactic condition for announced_structurally is not a theorem (it is computed per graph). '
+          'Non-dict states, __slots__-only classes and the byte level of pickle are exercised or out of scope, not modelled. The model is '
+          'hand-written and pinned to state.py / remote_reduce by tools/pin.py. ' + COMMON_NOTE),
+    technique='machine-checked proof (Coq, structural induction over all graphs) + refutation witness + differential correspondence on both dump and load side',
 )
 CHECKS['C15'] = dict(
-    text=('Same model as C14 with the heap of patch dictionaries. Theorems: no residue after loading a chain of any depth (partial), refutation '
-          'witnesses for misdelivery (container-held object takes the top-level patch) and for the in-place modification of nested caller '
-          'dictionaries. The harness runs graphs x patch dictionaries (top level, existing / non-existing children, nested, reused), call histories '
-          'with failing calls compared against the same call on a fresh thread, and concurrent loads, against the model and the specification.'),
-    design='5/C15',
-    note=('Known findings: misdelivery to objects held through containers / plain objects / memo references, mutation of patch dictionaries nested '
-          'two or more levels, plus the C14 findings. The positive statement with patches (patched chain = apply_patches) is checked by the '
-          'differential harness and the oracle, not yet by a theorem. ' + COMMON_NOTE),
-    technique='machine-checked refutations and partial proof (Coq) + differential correspondence with a direct oracle',
+    text=('Proof, same model and induction as C14: C15_patches_reach_exactly_the_addressed_objects - for every graph and every patch dictionary '
+          '(nested to any depth) the states handed to __setstate__ are exactly spec g p: patches address the top-level object, a dictionary '
+          'under k the direct child stored under k (recursively), any other value replaces the entry, and every object that is not addressed - '
+          'siblings, objects inside containers or plain objects, at any depth - is restored with its own state; C15_no_residue - the per-thread '
+          'stack ends empty (or holds only the untouched patches of a top-level object which takes none). Independence of successive loads, '
+          'failing loads in between, reused patch dictionaries (structure AND identity of the caller\'s nested dictionaries are compared before '
+          'and after), and concurrent threads are exercised on the implementation against the model and a fresh thread.'),
+    design='12.6',
+    note=('Known findings (narrow): (1) a directly held child whose first occurrence lies inside an earlier attribute of the same holder takes '
+          'the entry of another object (C14_refuted_first_occurrence_inside_an_earlier_attribute); (2) a dictionary patch addressed at a child '
+          'that is only referred to cannot be applied (C15_refuted_dict_patch_for_a_child_that_is_only_referred_to). Thread-locality is by '
+          'construction of the model and tested, not proved. ' + COMMON_NOTE),
+    technique='machine-checked proof (Coq, structural induction over all graphs and patch dictionaries) + refutation witnesses + differential correspondence with a direct oracle',
 )
 
 CHECKS['C01'] = dict(
@@ -125,21 +134,22 @@ CHECKS['C01'] = dict(
           '(try/except/finally nesting, handler classes, one effect label per statement); Child/Sem.v executes them with asynchronous exceptions '
           'and kills landing at any statement boundary and models the parent-side decoding. The theorem covers every kind in {thread, process} x '
           '{one-shot, persistent}, every target behaviour, rebuildable or not, and ANY pair of events at ANY boundary (finite domain, recomputed by '
-          'vm_compute on the regenerated skeletons): a dead worker is never undefined, the accessors never raise, has_error False only if the target '
+          'vm_compute on the regenerated skeletons; the REMOTE kind - RemoteWorker._run_backend, PersistentRemoteWorker._cleanup, decoded as _fetch_results does - has its own theorem C01_every_landing_point_remote): a dead worker is never undefined, the accessors never raise, has_error False only if the target '
           'returned, the reported exception is one the target raised or WorkerTerminatedError or None. Every single landing point is replayed on '
-          'the real workers (sys.settrace in-process for thread kinds, sitecustomize tracer in spawned children for process kinds, incl. SIGKILL '
-          'and SIGKILL mid-send) and compared with the model; accessors are read three times.'),
+          'the real workers (sys.settrace in-process for thread kinds, sitecustomize tracer in spawned children for process kinds and in the backends '
+          'a real loopback server spawns for remote kinds, incl. SIGKILL and SIGKILL mid-send) and compared with the model; accessors are read '
+          'three times; the parent side of remote workers is probed with results that are slow to rebuild.'),
     design='5/C01',
     note=('Assumes asynchronous exceptions land at statement boundaries or inside an interruptible target, and FIFO pipes with at most one truncated '
-          'trailing message. Remote kinds are covered by their decoding fix and C02, not by this model. Pairs of landing points and opcode-level '
+          'trailing message. The server process between a remote parent and its backend, and TCP, are not modelled. Pairs of landing points and opcode-level '
           'points are in the theorem only. ' + COMMON_NOTE),
     technique='machine-checked finite-domain proof (Coq, vm_compute) over skeletons regenerated from the source + line-level injection correspondence',
 )
 CHECKS['C03'] = dict(
-    text=('Proof over the same regenerated skeletons with ONE graceful terminate: for every boundary from construction-complete on, a target that '
+    text=('Proof over the same regenerated skeletons (thread, process, remote) with ONE graceful terminate - raised directly in a thread child, delivered by the child\'s own control thread in process and remote children (ATerm) -: for every boundary from construction-complete on, a target that '
           'runs interruptible code and propagates ends with WorkerTerminatedError and its finally/_cleanup ran (or the boundary is never reached); a '
           'target that ended on its own yields its own outcome or WorkerTerminatedError, except on the boundaries of the failure-recording handler '
-          '(refuted there: known finding). Every landing point is replayed on real thread and process workers; the real terminate() is exercised on '
+          '(refuted there: known finding; the remote kind provably has no such window). Every landing point is replayed on real thread, process and remote workers; the real terminate() is exercised on '
           'running targets inside try/finally and on idle persistent workers for thread, process and remote kinds.'),
     design='5/C03',
     note=('Known finding C03-handler-window. Time-to-death is exercised (terminate(timeout=10) must return True), not proved. The terminate protocol '
@@ -196,7 +206,7 @@ CHECKS['C16'] = dict(
           'assignments and the three endings: the parent polls user_state while the worker is alive, checks it after death, the rejected '
           'parent-side assignment, restart() and a second incarnation.'),
     design='5/C16',
-    note=('Partial: remote kinds are covered by the harness only (their child loop is not among the translated skeletons); thread kinds share memory '
+    note=('Remote kinds: the backend sends the state as a message of its own after the result (SockSendState in the regenerated skeleton of _run_backend); the theorems cover it. Thread kinds share memory '
           '(unspecified while alive). ' + COMMON_NOTE),
     technique='machine-checked finite-domain proof (Coq) over skeletons regenerated from the source + differential execution on the six classes',
 )
